@@ -293,10 +293,15 @@ def run(rep):
 
     def mc(job):
         return _tlc(job[0], cfg=job[1], env=job[2], workers=max(1, tlc.NCPU // len(jobs)), timeout=3000)
-    with ThreadPoolExecutor(max_workers=len(jobs)) as ex:
-        for job, r in zip(jobs, ex.map(mc, jobs)):
+    mc_pool = ThreadPoolExecutor(max_workers=len(jobs))      # (M) runs beside the conformance pass
+    mc_runs = [mc_pool.submit(mc, job) for job in jobs]
+
+    def finish_mc():
+        for job, fut in zip(jobs, mc_runs):
+            r = fut.result()
             tlc.require_ok(r, job[1])
             rep.add_mc(job[1][:-4], r, job[3])
+        mc_pool.shutdown()
     findings = common.open_findings(PID)
     devs = {f["id"]: f["deviation"] for f in findings}
 
@@ -372,7 +377,10 @@ def run(rep):
                           puml_outputs=len(pumls), characters=sum(len(d["text"]) for d in dots.values()),
                           model_texts_rejected_by_carrier=corpus.skipped, strings=len(strs))
         rep.exhaustive = False
+        finish_mc()
     finally:
+        for fut in mc_runs:
+            fut.cancel()
         shutil.rmtree(root, ignore_errors=True)
 
 
